@@ -908,7 +908,7 @@ def register(R):
         return out
 
     R.contract(
-        f'{CST}._submit', props=['C14', 'C15', 'C08', 'C04', 'C10'], params=dict(CP_PARAMS),
+        f'{CST}._submit', props=['C14', 'C15', 'C08', 'C04', 'C10', 'C18'], params=dict(CP_PARAMS),
         checks=cp_submit_checks, raises={'Exception': only_propagates},
         loops={0: LoopSpec(invariant=head_map_inv, local_types={'head_object_request': EXTRA})},
     )
